@@ -25,7 +25,7 @@ func ruleS7(c *an.Ctx) {
 	var order []*ssa.Function
 	var walk func(f *ssa.Function, d int)
 	walk = func(f *ssa.Function, d int) {
-		if f == nil || seen[f] || f.Blocks == nil || f.Pkg != root.Pkg || d > 8 {
+		if f == nil || seen[f] || f.Blocks == nil || fnPkg(f) != root.Pkg || d > 8 {
 			return
 		}
 		seen[f] = true
@@ -64,4 +64,15 @@ func ruleS7(c *an.Ctx) {
 	}
 	c.Check("S7", "struct-definitions-compared@(*Ast).EquivalentCall", root.Pos(), where != "", detail)
 	c.Note("S7: %d functions reachable from Ast.EquivalentCall", len(order))
+}
+
+// fnPkg: the package of a function; for an instantiation of a generic function, that of its origin.
+func fnPkg(f *ssa.Function) *ssa.Package {
+	if f.Pkg != nil {
+		return f.Pkg
+	}
+	if o := f.Origin(); o != nil {
+		return o.Pkg
+	}
+	return nil
 }
